@@ -15,19 +15,19 @@ NOT_APPLICABLE = {
 }
 
 TEXT = {
-    'C01': ('exploration', '7 C01', "Seeded search over DAG shapes x serial / coordinator-simulation / simulated fork / simulated spawn x worker counts x cache pre-states x completion orders x 16 hash-seed classes; every returned dict is compared with a reference evaluator that works on the specification only. Sampling: a clean batch is evidence, not proof.",
+    'C01': ('exploration', '7 C01', "Seeded search over DAG shapes x serial / coordinator-simulation / simulated fork / simulated spawn x worker counts x cache pre-states (incl. bust_cache) x completion orders x 16 hash-seed classes; every returned dict is compared with a reference evaluator that works on the specification only; in a third of the runs the same task objects are handed to a second run_tasks call (new Lab, no storage, another context). Sampling: a clean batch is evidence, not proof.",
             "S2 stub fidelity (SimProcess/SimQueue model CPython 3.12 multiprocessing on Linux); spawn flavour really pickles task and results; values are unique per node so a foreign result cannot compare equal"),
-    'C02': ('exploration', '7 C02', "Every run() begin is checked against the finish instant of every dependency (global event sequence numbers, not time) and every value read inside run() against that dependency's real result of this run; failing and dying dependencies are injected.",
+    'C02': ('exploration', '7 C02', "Every run() begin is checked against the finish instant of every dependency (global event sequence numbers, not time) and every value read inside run() against that dependency's real result of this run; failing (exceptions, sys.exit) and dying (SIGKILL, os._exit with status 0/1) dependencies are injected; a second run_tasks call on the same task objects checks that nothing read in the first call leaks into it.",
             "finish instant of a dependency = its run() end / failure / kill event recorded by the probe; interleavings finer than seam operations are not generated"),
-    'C03': ('exploration', '7 C03', "Per distinct node at most one run() begin and one cache load (seen at the Storage seam), never both; executed/loaded sets equal a reference planner over (spec, cached subset, bust flag); every reachable instance carries result_meta.",
+    'C03': ('exploration', '7 C03', "Per distinct node at most one run() begin and one cache load (seen at the Storage seam), never both; executed/loaded sets equal a reference planner over (spec, cached subset, bust flag); every reachable instance carries result_meta; in a third of the runs a second call on the same Lab object and task objects must load what the first call cached.",
             "cache pre-state is established by a real earlier serial run plus deletion of entries; the planner is an independent model over the specification"),
-    'C04': ('exploration', '7 C04', "Invariant after every event: per type, tasks inside run() <= max_parallel; executing task processes <= max_workers (true process liveness in S2, in-flight set at submit in S1); workers are parked inside run() so that limits are binding; deaths and multi-completion batches are forced.",
+    'C04': ('exploration', '7 C04', "Invariant after every event: per type, tasks inside run() <= max_parallel; executing task processes <= max_workers (true process liveness in S2, in-flight set at submit in S1); workers are parked inside run() so that limits are binding; deaths and multi-completion batches are forced; half of the process-backend runs are preceded by another run_tasks call with a different max_workers inside the same simulated OS.",
             "a worker that has queued its result and is only exiting is not counted as executing"),
     'C05': ('exploration', '7 C05', "At every resting point (S1: each wait(); S2: >=3 quiet polls with every live worker parked inside run()) the number of executing tasks must equal the capacity model min(max_workers, sum over types of min(max_parallel, runnable)).",
             "a resting point is a state of the simulation, not a duration; a dead worker may take two polls to be noticed, which is why three quiet polls are required"),
-    'C06': ('exploration', '7 C06', "Histories first run -> second run -> (1 in 6) third run in a fresh interpreter started with another PYTHONHASHSEED, with independently drawn backends (serial / S1 / simulated fork / simulated spawn) and virtual, ticking or real clocks for the first run: every executed cacheable node must be reported cached, the later runs must return equal values without any run() begin for cached nodes, and result_meta must equal the originally recorded start and duration. Values are unique per node, so an entry stored under or loaded from another key cannot pass.",
+    'C06': ('exploration', '7 C06', "Histories first run -> second run -> (1 in 6) third run in a fresh interpreter started with another PYTHONHASHSEED, with independently drawn backends (serial / S1 / simulated fork / simulated spawn) and virtual, ticking or real clocks for the first run: every executed cacheable node must be reported cached, the later runs must return equal values without any run() begin for cached nodes, and result_meta must equal the originally recorded start and duration; a third of the histories continue with a bust_cache re-execution and another hit (which must return the new generation); plus real first-run/second-run histories on the real backends with task classes defined in the __main__ script. Values are unique per node, so an entry stored under or loaded from another key cannot pass.",
             "the second and third runs use a different context generation so that a re-execution is visible in the value"),
-    'C08': ('exploration', '7 C08', "Stateful model check: generated histories (<= 10 operations: run, run with bust_cache, uncache, cached_tasks, probe-run of the listed tasks, new Lab object) over a generated universe of <= 7 nodes including cache=None types, on LocalStorage, FsspecStorage over fsspec's LocalFileSystem and MemoryFileSystem, and storage=None; after every operation is_cached of every node, the cached_tasks listing, executed sets and returned values are compared with a plain reference dictionary and planner.",
+    'C08': ('exploration', '7 C08', "Stateful model check: generated histories (<= 10 operations: run, run with bust_cache, runs with failing tasks, uncache, cached_tasks, probe-run of the listed tasks, new Lab object; one Lab object and one set of task objects live across operations) over a generated universe of <= 7 nodes including cache=None types, on LocalStorage, FsspecStorage over fsspec's LocalFileSystem and MemoryFileSystem, and storage=None; after every operation is_cached of every node, the cached_tasks listing, executed sets and returned values are compared with a plain reference dictionary and planner.",
             "equality is on public observations (is_cached, cached_tasks, returned values, execution records), not on directory listings"),
     'C09': ('exploration', '7 C09', "The C08 history machine with universes drawn from the supported parameter grammar (empty / unicode / JSON-special strings, big and negative ints, +-inf floats, None, enum members, nested tuples / lists / string-keyed dicts, nested tasks), a prefix-named pair of task types, a same-named type in a second module and two cache formats in one storage: cached_tasks must return each cached task exactly once, equal to the original, with the same cache_key and the stored result_meta, nothing of other types, and running the returned tasks must load the stored values without executing.",
             "NaN parameters are excluded (a task holding NaN is not equal to a rebuilt copy of itself under any implementation)"),
@@ -39,13 +39,13 @@ TEXT = {
             "single faults only; injection points are those of the reference execution (a run that does not reach its point is a harness error)"),
     'C13': ('fault_enumeration', '7 C13', "Kill-point enumeration in the simulated process backends: the worker is killed (frozen for ever, no finally, no with-exit) at every yield point of its save phase - storage calls, write/flush/close boundaries, line boundaries of the save path, a split inside writes larger than a page - each with user-space buffers lost and flushed first; first save and overwrite; afterwards a new Lab must either not report the task or load a complete old/new value. Exhaustive over the kill points of the reference executions.",
             "process-kill semantics only (OS page cache survives); interleavings inside one storage operation (e.g. a half-finished rmtree) are not modelled"),
-    'C14': ('fault_enumeration', '7 C14', "Serial backend: one run per line-event index executed by the calling thread inside labtech during run_tasks (exhaustive for two fixed workloads, ~5 300 instants) plus sampled interrupt pairs; process backends (simulated fork/spawn): seeded search over DAGs, schedules and one or two interrupt instants, delivered at main-thread line boundaries or while the main thread is blocked in the helper thread's join, to the whole foreground group according to each child's recorded SIGINT disposition. Oracle: KeyboardInterrupt and nothing else, no process/task start after the interrupt, executing workers finish and their results are cached (single) or are dead without a further worker step (double), every entry reported cached afterwards loads a correct value.",
+    'C14': ('fault_enumeration', '7 C14', "Serial backend: one run per line-event index executed by the calling thread inside labtech during run_tasks (exhaustive for two fixed workloads, ~5 300 instants) plus sampled interrupt pairs; process backends (simulated fork/spawn): seeded search over DAGs, schedules and one or two interrupt instants, delivered at main-thread line boundaries or while the main thread is blocked in the helper thread's join, to the whole foreground group according to each process's recorded SIGINT disposition and signal mask (a blocked SIGINT stays pending, an ignored one is discarded; forked children inherit the mask, spawned ones do not). Oracle: KeyboardInterrupt and nothing else, no process/task start after the interrupt, executing workers finish and their results are cached (single) or are dead without a further worker step (double), every entry reported cached afterwards loads a correct value.",
             "interrupt instants are line boundaries of labtech's own code plus blocked seam operations; instants inside the standard library are attributed to the calling labtech line"),
-    'C16': ('exploration', '7 C16', "At the process-creation seam every worker of the fork/spawn backend must be requested from the fork/spawn context; context seen inside run() equals filter_context(lab.context); storage is byte-identical between runs differing only in context; plus a real-OS probe (pid, ppid, module global mutated by the parent) on the three real backends.",
+    'C16': ('exploration', '7 C16', "At the process-creation seam every worker of the fork/spawn backend must be requested from the fork/spawn context; context seen inside run() equals filter_context(lab.context); storage is byte-identical between runs differing only in context; (also for results that contain task objects); plus a real-OS probe (pid, ppid, module global mutated by the parent) on the three real backends, alone and after another process backend was used in the same interpreter.",
             "the real-OS half has no schedule dependence and is a real-execution probe, declared as such"),
     'C19': ('exploration', '7 C19', "Simulated fork and spawn backends; every node emits a drawn pattern of uniquely tokenised labtech.logger records, printed lines, stderr lines, partial writes and explicit flushes; a handler on the caller's logger must have received each required token exactly once before run_tasks returns; the scheduler decides which worker finishes in the last polling round.",
             "exit-flush ordering of BaseProcess._bootstrap (and the second flush at interpreter finalisation of a spawned child) is modelled from the CPython 3.12 source and was compared with the real backends by hand"),
-    'C17': ('exploration', '7 C17', "A pass-through spy around the real Serial/Fork/Spawn runners and the S1 runner checks with Runner.get_result (pure read) that results stay until the last direct dependent finished and are gone afterwards, and that nothing is held at return, over completion orders, failure patterns and all 16 hash-seed classes.",
+    'C17': ('exploration', '7 C17', "A pass-through spy around the real Serial/Fork/Spawn runners and the S1 runner checks with Runner.get_result (pure read) that results stay until the last direct dependent finished and are gone afterwards, that nothing is held at return and that requested results reach the return value, over completion orders, failure patterns and all 16 hash-seed classes.",
             "weak-reference liveness only where result objects are local (S0/S1)"),
 }
 
